@@ -65,7 +65,7 @@ class C01(Prop):
         case = {'formula': f, 'data': data, 'kind': rng.choice(['dt', 'dt', 'dt_off'])}
         if rng.random() < 0.1:
             case['useed'] = rng.randrange(1 << 30)
-        elif rng.random() < 0.12 and not any(g[0] in ('since', 'until', 'unless') and g[1] is not None
+        elif rng.random() < 0.2 and not any(g[0] in ('since', 'until', 'unless') and g[1] is not None
                                              for g in lang.walk(f)):
             from rtverif.props.c08 import PERIODS, MODES
             case['period'] = [list(rng.choice(PERIODS)), rng.choice(['s', 'ms', 'us']),
